@@ -148,6 +148,7 @@ pub fn op_hs_keygen(w: &mut World, ki: usize) {
         }
     };
     let r = node.genkey(&cfg.params, &cfg.seed, 1000);
+    w.fault("second-implementation-consulted");
     w.oracle_evaluated();
     let (hprv, hpub, _haux) = match r {
         Some(x) => x,
@@ -169,8 +170,10 @@ pub fn op_hs_keygen(w: &mut World, ki: usize) {
         w.violate("C08", "hash-sigs-pub", "hash-sigs-binary", format!("hash-sigs wrote public key {} for the same seed, the library {}", hex(&hpub), hex(&lib_pub)));
     }
     // the library-written aux file must be usable by hash-sigs (C10 (3))
+    // (signing makes hash-sigs build every level's tree: only for shapes it can afford)
+    let affordable = cfg.params.iter().all(|p| p.1 <= 10) && cfg.params.iter().filter(|p| p.1 == 10).count() <= 1;
     if let Some(Some(aux)) = w.keys[ki].aux.first().cloned() {
-        if !aux.is_empty() && aux[0] != 0 {
+        if affordable && !aux.is_empty() && aux[0] != 0 {
             let msg = b"aux interop".to_vec();
             match w.node.as_ref().unwrap().sign(&fresh_prv, Some(&aux), &msg) {
                 Some((sig, _)) => {
